@@ -258,8 +258,9 @@ fn shared_local_programs() -> Vec<(String, usize)> {
             v.push((format!("local x = std.trace(\"b__\", 1); local o = {{ anchor: 0, {m1}, {m2} }}; local q = o + {{}}; [{u1}, {u2}, {}, x]", u2.replace("o.", "q.")), 1));
         }
     }
-    // comprehension objects: the captured variable and object locals
-    v.push(("local o = { local x = std.trace(\"b__\", 1), [k]: x for k in [\"a\", \"b\"] }; [o.a, o.b, o.a]".replace("\\\"", "\""), 1));
+    // comprehension objects: their locals belong to each field's body (the specification
+    // desugars them into the body), so they run once per field, not once per object
+    v.push(("local o = { local x = std.trace(\"b__\", 1), [k]: x for k in [\"a\", \"b\"] }; [o.a, o.b, o.a]".replace("\\\"", "\""), 2));
     v.push(("local o = { [k.n]: k.v for k in [{n: \"a\", v: std.trace(\"b__\", 1)}] }; [o.a, o.a, (o + {}).a]".replace("\\\"", "\""), 1));
     v
 }
